@@ -13,6 +13,10 @@ fn main() {
         vp_sys::c19::exec_child();
         return;
     }
+    if id == "c08-exec" {
+        vp_misc::c08::exec_child();
+        return;
+    }
     if id == "selftest-dump" {
         let n: usize = args.get(1).and_then(|s| s.parse().ok()).unwrap_or(1000);
         let seed: u64 = args.get(2).and_then(|s| s.parse().ok()).unwrap_or(1);
